@@ -25,6 +25,7 @@ import YalafiVerif.Properties.PlainVanishStmt
 import YalafiVerif.Properties.PlainMixStmt
 import YalafiVerif.Properties.PlainMix2Stmt
 import YalafiVerif.Properties.PlainMix3Stmt
+import YalafiVerif.Properties.PlainMix4Stmt
 import YalafiVerif.Properties.PlainParaStmt
 import YalafiVerif.Properties.PlainParEnvStmt
 import YalafiVerif.Properties.PlainParaMix3Stmt
